@@ -337,6 +337,9 @@ impl Op {
 }
 
 /// The recording RNG given to the builds (see PROTOCOL.md, "Events").
+/// Write the items drawn by the split searches (`--choices`).
+pub static CHOICES: std::sync::atomic::AtomicBool = std::sync::atomic::AtomicBool::new(false);
+
 pub struct RecRng(StdRng);
 
 impl RngCore for RecRng {
@@ -874,6 +877,7 @@ impl<'a, 'w> Executor<'a, 'w> {
         // the draws made between `splitstart` and `normal` belong to the split search (two-means): they are
         // not oracles of the model and are 94 % of a trace, so they are left out unless asked for
         let full = std::env::var_os("HARNESS_FULL_EVENTS").is_some();
+        let choices = CHOICES.load(std::sync::atomic::Ordering::Relaxed);
         let mut in_split = false;
         for ev in events {
             match ev {
@@ -905,6 +909,11 @@ impl<'a, 'w> Executor<'a, 'w> {
                 }
                 Event::Batch(k) => {
                     let _ = writeln!(buf, "ev batch {k}");
+                }
+                Event::Chosen(id) => {
+                    if choices {
+                        let _ = writeln!(buf, "ev chosen {id}");
+                    }
                 }
             }
         }
